@@ -41,7 +41,7 @@ kinds={"ledgersim":"real internal/ledger on simulated KV disk + tmpfs block file
        "ordersim":"real etcdraft/solo ordering nodes on a simulated network in one synctest bubble"}
 m={"version":1,
  "setup_cmd":"cd /verif && ./setup.sh",
- "hooks":{"guard":"verif","enable":"go1.26.8 test -c -tags verif -overlay <generated overlay.json mapping /verif/overlay/_src/<pkg>/x.go to /repo/<pkg>/zz_verif_x.go> -ldflags=-checklinkname=0 ./engines/<engine>","baseline_off_cmd":"/verif/tools/baseline.sh","source_commits":[],"add_only":True},
+ "hooks":{"guard":"verif","enable":"go1.26.8 test -c -tags verif -overlay <generated overlay.json mapping /verif/overlay/_src/<pkg>/x.go to /repo/<pkg>/zz_verif_x.go, plus build-time variants of /repo's current internal/ledger/state_accessor.go and internal/executor/handle.go with verifYield(...) calls inserted before the top-level statements of FlushDirtyData, Commit and processExecuteEvent (cmd/verifctl/yields.go); nothing guarded is committed to /repo> -ldflags=-checklinkname=0 ./engines/<engine>","baseline_off_cmd":"/verif/tools/baseline.sh","source_commits":[],"add_only":True},
  "engines":[{"name":e,"path":"engines/"+e,"serves_properties":sorted(ps),"kind_free_text":kinds.get(e,"")} for e,ps in sorted(engines.items())],
  "checks":sorted(checks,key=lambda c:c['property_id']),
  "notes":"Hooks are injected at build time with `go test -overlay` (files under overlay/_src, build tag verif); nothing guarded is committed to /repo. Unguarded commits in /repo are 'fix:' repairs of genuine defects listed in known_findings.json. Properties listed under not_applicable with reason 'check not built yet' are planned (DESIGN.md §0), not judged inapplicable.",
